@@ -372,3 +372,35 @@ func specGfpow(t T, p int) T {
 //@     use-step mulSplitWord(c, head(in[i]))
 //@     use-step tablesMulRowW(c, head(in[i]) & 0xff)
 //@     use-step tablesMulRowW(c, head(in[i]) >> 8)
+
+// ---------------------------------------------------------------------
+// Matrix (C11, and the parts of C07/C12 that go through Matrix.At)
+
+//@ pred matOK(m) = m.rows > 0 && m.columns > 0 && mathint(len(m.elements)) == mathint(m.rows) * mathint(m.columns)
+
+//@ lemma mulMono
+//@   props C11 C07 C12
+//@   mode int
+//@   forall a int, b int, c int
+//@   requires 0 <= a && a < b && c >= 1
+//@   ensures mathint(a)*mathint(c) + mathint(c) <= mathint(b)*mathint(c)
+
+//@ func (Matrix).checkRowIndex
+//@   props C11 C07 C12
+//@   pure
+//@   panics i < 0 || i >= m.rows
+//@   ensures !(i < 0 || i >= m.rows)
+
+//@ func (Matrix).checkColumnIndex
+//@   props C11 C07 C12
+//@   pure
+//@   panics i < 0 || i >= m.columns
+//@   ensures !(i < 0 || i >= m.columns)
+
+//@ func (Matrix).At
+//@   props C11 C07 C12
+//@   pure
+//@   requires matOK(m)
+//@   panics i < 0 || i >= m.rows || j < 0 || j >= m.columns
+//@   ensures result == m.elements[i*m.columns+j]
+//@   use mulMono(i, m.rows, m.columns)
